@@ -326,8 +326,15 @@ func (r *Run) Finish() {
 		}
 		sort.Strings(l)
 		cov[k+"_count"] = len(l)
+		name := k
+		switch k {
+		case "states", "transitions", "programs", "obligations", "discharged", "evaluations", "distinct_nontrivial":
+			// integer keys of the evidence schema: the count goes there, the list beside it
+			cov[k] = len(l)
+			name = k + "_seen"
+		}
 		if len(l) <= 1200 {
-			cov[k] = l
+			cov[name] = l
 		}
 	}
 	nd := int64(len(r.distinct)) + r.distinctAdd
